@@ -301,7 +301,13 @@ func (r *transport) handleCacheHit(
 	respNoCacheFieldsRaw, hasRespNoCache := ccResp.NoCache()
 	respNoCacheFieldsSeq, isRespNoCacheQualified := respNoCacheFieldsRaw.Value()
 
-	// RFC 8246: If response is fresh and immutable, always serve from cache unless request has no-cache
+	if (freshness.IsStale && ccResp.MustRevalidate()) ||
+		(hasRespNoCache && !isRespNoCacheQualified) { // Unqualified no-cache: must revalidate before serving from cache
+		goto revalidate
+	}
+
+	// RFC 8246: If response is fresh and immutable, serve from cache unless validation is required (above) or
+	// the request has no-cache
 	if !freshness.IsStale && ccResp.Immutable() && !ccReq.NoCache() {
 		return r.serveFromCache(
 			req,
@@ -311,11 +317,6 @@ func (r *transport) handleCacheHit(
 			isRespNoCacheQualified,
 			respNoCacheFieldsSeq,
 		)
-	}
-
-	if (freshness.IsStale && ccResp.MustRevalidate()) ||
-		(hasRespNoCache && !isRespNoCacheQualified) { // Unqualified no-cache: must revalidate before serving from cache
-		goto revalidate
 	}
 
 	if ccReq.OnlyIfCached() || (!freshness.IsStale && !ccReq.NoCache()) {
